@@ -46,8 +46,8 @@ pub fn drive_to(spec: &SessionSpec, idx: usize) -> Result<Pair, Fail> {
     for k in 0..idx {
         let payload = spec.payload(k, 3);
         let (w, r) = if k % 2 == 0 { (&mut pair.i, &mut pair.r) } else { (&mut pair.r, &mut pair.i) };
-        let msg = hs_write(w, &payload, 65535).map_err(|e| Fail::new(format!("prefix write {k}: {e:?}")))?;
-        hs_read(r, &msg, 65535).map_err(|e| Fail::new(format!("prefix read {k}: {e:?}")))?;
+        let msg = hs_write(w, &payload, 65535).map_err(|e| Fail::setup(format!("{}: honest prefix write {k}: {e:?}", spec.name_string())))?;
+        hs_read(r, &msg, 65535).map_err(|e| Fail::setup(format!("{}: honest prefix read {k}: {e:?}", spec.name_string())))?;
     }
     Ok(pair)
 }
@@ -130,7 +130,7 @@ pub fn sweep_oracle(c: &SweepCase, acc: &mut Acc) -> CaseResult {
             let payload = expand(spec.key_seed, 9, *plen);
             let mut out = vec![0u8; *buf];
             let res = call("HandshakeState::write_message", || w.write_message(&payload, &mut out))
-                .map_err(|f| Fail { msg: format!("{name} message {} payload {plen} buffer {buf}: {}", c.idx, f.msg), sig: f.sig })?;
+                .map_err(|f| Fail { msg: format!("{name} message {} payload {plen} buffer {buf}: {}", c.idx, f.msg), sig: f.sig, setup: f.setup })?;
             if let Ok(n) = res {
                 ensure!(n <= *buf, "{name}: write returned {n} for a {buf}-byte buffer");
             }
@@ -138,7 +138,7 @@ pub fn sweep_oracle(c: &SweepCase, acc: &mut Acc) -> CaseResult {
         },
         Probe::ReadCut { plen, len, garbage, pbuf } => {
             let payload = expand(spec.key_seed, 9, *plen);
-            let msg = hs_write(w, &payload, 65535 + 16).map_err(|e| Fail::new(format!("{name}: honest write {}: {e:?}", c.idx)))?;
+            let msg = hs_write(w, &payload, 65535 + 16).map_err(|e| Fail::setup(format!("{name}: honest write {}: {e:?}", c.idx)))?;
             let mut m = if *garbage { expand(spec.key_seed, 10, *len) } else { msg[..(*len).min(msg.len())].to_vec() };
             if *garbage && *len == msg.len() {
                 // same length as the genuine message, genuine prefix, garbage tail
@@ -147,7 +147,7 @@ pub fn sweep_oracle(c: &SweepCase, acc: &mut Acc) -> CaseResult {
             }
             let mut out = vec![0u8; *pbuf];
             let res = call("HandshakeState::read_message", || r.read_message(&m, &mut out))
-                .map_err(|f| Fail { msg: format!("{name} message {} ({} of {} bytes, garbage={garbage}) payload buffer {pbuf}: {}", c.idx, len, msg.len(), f.msg), sig: f.sig })?;
+                .map_err(|f| Fail { msg: format!("{name} message {} ({} of {} bytes, garbage={garbage}) payload buffer {pbuf}: {}", c.idx, len, msg.len(), f.msg), sig: f.sig, setup: f.setup })?;
             if let Ok(n) = res {
                 ensure!(n <= *pbuf, "{name}: read returned {n} for a {pbuf}-byte buffer");
             }
@@ -157,7 +157,7 @@ pub fn sweep_oracle(c: &SweepCase, acc: &mut Acc) -> CaseResult {
             let m = expand(spec.key_seed, 11, *len);
             let mut out = vec![0u8; *pbuf];
             let res = call("HandshakeState::read_message", || r.read_message(&m, &mut out))
-                .map_err(|f| Fail { msg: format!("{name} message {} oversize {len}: {}", c.idx, f.msg), sig: f.sig })?;
+                .map_err(|f| Fail { msg: format!("{name} message {} oversize {len}: {}", c.idx, f.msg), sig: f.sig, setup: f.setup })?;
             acc.label(if res.is_ok() { "read_oversize:ok" } else { "read_oversize:err" });
         },
     }
@@ -206,41 +206,41 @@ fn tsweep_oracle(c: &TSweepCase, acc: &mut Acc) -> CaseResult {
     let data = expand(spec.key_seed, 12, c.len);
     let mut out = vec![0u8; c.buf];
     if c.stateless {
-        let ti = pair.i.into_stateless_transport_mode().map_err(|e| Fail::new(format!("{e:?}")))?;
-        let tr = pair.r.into_stateless_transport_mode().map_err(|e| Fail::new(format!("{e:?}")))?;
+        let ti = pair.i.into_stateless_transport_mode().map_err(|e| Fail::setup(format!("{e:?}")))?;
+        let tr = pair.r.into_stateless_transport_mode().map_err(|e| Fail::setup(format!("{e:?}")))?;
         if c.write {
-            let r = call("StatelessTransportState::write_message", || ti.write_message(c.nonce, &data, &mut out)).map_err(|f| Fail { msg: format!("{what}: {}", f.msg), sig: f.sig })?;
+            let r = call("StatelessTransportState::write_message", || ti.write_message(c.nonce, &data, &mut out)).map_err(|f| Fail { msg: format!("{what}: {}", f.msg), sig: f.sig, setup: f.setup })?;
             if let Ok(n) = r {
                 ensure!(n <= c.buf, "{what}: returned {n}");
             }
         } else {
             let msg = if c.genuine && c.len >= 16 && c.len <= 65535 && c.nonce != u64::MAX {
-                sl_write(&ti, c.nonce, &data[..c.len - 16], c.len).map_err(|e| Fail::new(format!("{what}: genuine write: {e:?}")))?
+                sl_write(&ti, c.nonce, &data[..c.len - 16], c.len).map_err(|e| Fail::setup(format!("{what}: genuine write: {e:?}")))?
             } else {
                 data.clone()
             };
-            let r = call("StatelessTransportState::read_message", || tr.read_message(c.nonce, &msg, &mut out)).map_err(|f| Fail { msg: format!("{what}: {}", f.msg), sig: f.sig })?;
+            let r = call("StatelessTransportState::read_message", || tr.read_message(c.nonce, &msg, &mut out)).map_err(|f| Fail { msg: format!("{what}: {}", f.msg), sig: f.sig, setup: f.setup })?;
             if let Ok(n) = r {
                 ensure!(n <= c.buf, "{what}: returned {n}");
             }
         }
     } else {
-        let mut ti = pair.i.into_transport_mode().map_err(|e| Fail::new(format!("{e:?}")))?;
-        let mut tr = pair.r.into_transport_mode().map_err(|e| Fail::new(format!("{e:?}")))?;
+        let mut ti = pair.i.into_transport_mode().map_err(|e| Fail::setup(format!("{e:?}")))?;
+        let mut tr = pair.r.into_transport_mode().map_err(|e| Fail::setup(format!("{e:?}")))?;
         ti.verif_set_sending_nonce(c.nonce);
         tr.set_receiving_nonce(c.nonce);
         if c.write {
-            let r = call("TransportState::write_message", || ti.write_message(&data, &mut out)).map_err(|f| Fail { msg: format!("{what}: {}", f.msg), sig: f.sig })?;
+            let r = call("TransportState::write_message", || ti.write_message(&data, &mut out)).map_err(|f| Fail { msg: format!("{what}: {}", f.msg), sig: f.sig, setup: f.setup })?;
             if let Ok(n) = r {
                 ensure!(n <= c.buf, "{what}: returned {n}");
             }
         } else {
             let msg = if c.genuine && c.len >= 16 && c.len <= 65535 && c.nonce != u64::MAX {
-                t_write(&mut ti, &data[..c.len - 16], c.len).map_err(|e| Fail::new(format!("{what}: genuine write: {e:?}")))?
+                t_write(&mut ti, &data[..c.len - 16], c.len).map_err(|e| Fail::setup(format!("{what}: genuine write: {e:?}")))?
             } else {
                 data.clone()
             };
-            let r = call("TransportState::read_message", || tr.read_message(&msg, &mut out)).map_err(|f| Fail { msg: format!("{what}: {}", f.msg), sig: f.sig })?;
+            let r = call("TransportState::read_message", || tr.read_message(&msg, &mut out)).map_err(|f| Fail { msg: format!("{what}: {}", f.msg), sig: f.sig, setup: f.setup })?;
             if let Ok(n) = r {
                 ensure!(n <= c.buf, "{what}: returned {n}");
             }
@@ -340,7 +340,7 @@ fn p256_scalar_oracle(c: &P256ScalarCase, acc: &mut Acc) -> CaseResult {
         2 => vec![0xff; 32],
         _ => vec![],
     };
-    let params: snow::params::NoiseParams = if c.as_fixed_ephemeral { "Noise_NN_P256_ChaChaPoly_SHA256" } else { "Noise_XX_P256_ChaChaPoly_SHA256" }.parse().map_err(|e| Fail::new(format!("{e:?}")))?;
+    let params: snow::params::NoiseParams = if c.as_fixed_ephemeral { "Noise_NN_P256_ChaChaPoly_SHA256" } else { "Noise_XX_P256_ChaChaPoly_SHA256" }.parse().map_err(|e| Fail::setup(format!("{e:?}")))?;
     acc.label("p256_invalid_scalar_probe");
     acc.nontrivial(&(c.which, c.role_initiator, c.as_fixed_ephemeral));
     let r = call("Builder::build", || {
@@ -354,7 +354,7 @@ fn p256_scalar_oracle(c: &P256ScalarCase, acc: &mut Acc) -> CaseResult {
     });
     match r {
         Ok(_) => Ok(()),
-        Err(f) => Err(Fail { msg: format!("P-256 private key {} : {}", hex::encode(&key), f.msg), sig: Some("panic|Builder::build|P-256 private scalar zero or >= group order".into()) }),
+        Err(f) => Err(Fail { msg: format!("P-256 private key {} : {}", hex::encode(&key), f.msg), sig: Some("panic|Builder::build|P-256 private scalar zero or >= group order".into()), setup: false }),
     }
 }
 
